@@ -655,6 +655,60 @@ fn check_rewhiten(d: usize, p: &mut Partial) {
     p.class("rewhiten".to_string());
 }
 
+/// the same for the low-rank transformation: after an update that installs a spectral part with
+/// det != 1 the state re-derived by initialize_trajectory must be the state a fresh init_state
+/// builds (whitened position, whitened gradient and potential energy incl. the log-determinant)
+fn check_rewhiten_lowrank(d: usize, p: &mut Partial) {
+    if d < 2 {
+        return;
+    }
+    for rank in [1usize, 2.min(d), d] {
+        let (mut math, spy) = SpyMath::new(Dens::new(Target::std_normal(d)));
+        let mut rng = ChaCha8Rng::seed_from_u64(3);
+        let mut mm = LowRankMassMatrix::new(&mut math, LowRankSettings::default());
+        let s1: Vec<f64> = (0..d).map(|i| 0.5 + 0.1 * i as f64).collect();
+        let m1: Vec<f64> = (0..d).map(|i| 0.1 * i as f64).collect();
+        mm.update(&mut math, col(&s1), col(&m1), col(&[]), Mat::from_fn(d, 0, |_, _| 0.0), col(&vec![0.0; d]));
+        let mut h = TransformedHamiltonian::new(&mut math, mm, KineticEnergyKind::Euclidean);
+        let x: Vec<f64> = (0..d).map(|i| 0.3 + 0.2 * i as f64).collect();
+        p.evaluations += 1;
+        let Ok(mut st) = h.init_state(&mut math, &x) else { return };
+        let s2: Vec<f64> = (0..d).map(|i| 2.0 + 0.25 * i as f64).collect();
+        let m2: Vec<f64> = (0..d).map(|i| -0.3 + 0.05 * i as f64).collect();
+        let eig = [36.0, 0.1, 4.0, 0.01];
+        let vals: Vec<f64> = (0..rank).map(|j| eig[j % eig.len()]).collect();
+        let vecs = orthonormal(d, rank);
+        let vm: Mat<f64> = Mat::from_fn(d, rank, |i, j| vecs[j][i]);
+        let mu_inner: Vec<f64> = (0..d).map(|i| 0.1 * ((i % 3) as f64) - 0.1).collect();
+        h.transformation_mut().update(&mut math, col(&s2), col(&m2), col(&vals), vm, col(&mu_inner));
+        spy.borrow_mut().gaussian_script.push_back(vec![0.5; d]);
+        if h.initialize_trajectory(&mut math, &mut st, true, &mut rng).is_err() {
+            p.violation(format!("C02/initialize-trajectory-failed-after-low-rank-update/d{d}/rank{rank}"), String::new(), json!({"d": d, "rank": rank}));
+            continue;
+        }
+        let Ok(fresh) = h.init_state(&mut math, &x) else { continue };
+        let pot = |s: &State<M, TransformedPoint<M>>, math: &mut M| -> (Vec<f64>, Vec<f64>, f64) {
+            let y = nv::point_transformed_position(s.point(), math).to_vec();
+            let gy = nv::point_transformed_gradient(s.point(), math).to_vec();
+            let v = nv::point_velocity(s.point(), math).to_vec();
+            (y, gy, s.point().energy() - 0.5 * v.iter().map(|v| v * v).sum::<f64>())
+        };
+        let (y, gy, e) = pot(&st, &mut math);
+        let (y2, gy2, e2) = pot(&fresh, &mut math);
+        if max_rel(&y, &y2) > 1e-12 || max_rel(&gy, &gy2) > 1e-12 {
+            p.violation(format!("C02/stale-whitened-coordinates-after-transformation-change/lowrank/d{d}/rank{rank}"), format!("{:?} vs fresh {:?}", &y[..d.min(3)], &y2[..d.min(3)]), json!({"d": d, "rank": rank}));
+        }
+        if !mc_core::rel_close(e, e2, 1e-10, 1e-10) {
+            p.violation(
+                format!("C02/stale-logdet-after-transformation-change/lowrank/d{d}/rank{rank}"),
+                format!("potential energy (-logp - logdet) of the re-derived state {e} vs {e2} of a fresh state at the same position"),
+                json!({"d": d, "rank": rank}),
+            );
+        }
+        p.class(format!("rewhiten-lowrank:rank{}", rank.min(3)));
+    }
+}
+
 pub fn run(tier: Tier, _replay: Option<String>) -> i32 {
     let mut report = Report::new(
         "C02",
@@ -726,6 +780,7 @@ pub fn run(tier: Tier, _replay: Option<String>) -> i32 {
             check_exact_normal_conservation(d, eps, &mut p);
         }
         check_rewhiten(d, &mut p);
+        check_rewhiten_lowrank(d, &mut p);
     }
     report.merge(p);
     report.finish()
